@@ -2,7 +2,7 @@
    Message Expiry Interval, the CONNECT-time window. *)
 From Coq Require Import List NArith Bool Lia ZifyN ZifyBool.
 Import ListNotations.
-From GM Require Import Base.Topic Base.Msg Model.Queue Model.Broker.
+From GM Require Import Base.Topic Base.Msg Model.Queue Model.TopicMatch Model.Broker.
 Open Scope N_scope.
 
 Lemma remaining_bounds orig waited : 0 < orig -> 1 <= remaining orig waited <= orig.
@@ -41,3 +41,63 @@ Proof. reflexivity. Qed.
 
 Lemma aged_payload v5 now e m : m_payload (aged v5 now e m) = m_payload m /\ m_topic (aged v5 now e m) = m_topic m /\ m_qos (aged v5 now e m) = m_qos m.
 Proof. unfold aged. destruct (v5 && negb (m_expiry m =? 0)); cbn; auto. Qed.
+
+(* ================================================================== *)
+(* a packet with its observed wire size (ESendSz)                      *)
+(* ================================================================== *)
+
+(* not larger than the server's Maximum Packet Size (or a v3 client, or no maximum): the ordinary handler *)
+Lemma handle_packet_sz_small c k p n s : too_big k n s = false -> handle_packet_sz c k p n s = handle_packet c k p s.
+Proof. unfold handle_packet_sz. now intros ->. Qed.
+
+Lemma set_quota_same k : set_quota (k_quota k) k = k.
+Proof. destruct k; reflexivity. Qed.
+
+(* the results of the too-big branch: the read loop's own errors, or 0x95 after at most a quota charge *)
+Inductive sz_refused (c : N) (k : conn) (s : st) : hres -> Prop :=
+| szr_read code : sz_refused c k s (HErrRead s code)
+| szr_plain : sz_refused c k s (HErr s [] (Some 149))
+| szr_quota q : sz_refused c k s (HErr (upd_conn c (set_quota q k) s) [] (Some 149)).
+
+(* too big: nothing is handled.  The state is unchanged except, possibly, the sender's receive quota; no output;
+   the result is an error *)
+Lemma handle_packet_sz_big c k p n s : too_big k n s = true -> sz_refused c k s (handle_packet_sz c k p n s).
+Proof.
+  unfold handle_packet_sz. intros ->. destruct p; try apply szr_plain.
+  - destruct (has_wild topic); [apply szr_read|].
+    match goal with |- context [if ?b then HErrRead s (Some 130) else _] => destruct b end; [apply szr_read|].
+    destruct ((0 <? qos) && (k_quota k =? 0)); [apply szr_read|]. cbv zeta.
+    destruct (0 <? qos); [apply szr_quota|].
+    replace (upd_conn c k s) with (upd_conn c (set_quota (k_quota k) k) s) by now rewrite set_quota_same.
+    apply szr_quota.
+  - match goal with |- context [if ?b then _ else _] => destruct b end; [apply szr_plain|apply szr_read].
+Qed.
+
+(* the step of a sized packet is the step of the packet, or the failure of a connected socket after a refusal *)
+Lemma step_event_sz s c p n :
+  step_event s (ESendSz c p n) = step_event s (ESend c p) \/
+  exists k, nget c (b_conns s) = Some k /\ k_phase k = PhConnected /\ too_big k n s = true /\
+    ((exists code, step_event s (ESendSz c p n) = fail_conn c code true s) \/
+     step_event s (ESendSz c p n) = fail_conn c (Some 149) false s \/
+     exists q, step_event s (ESendSz c p n) = fail_conn c (Some 149) false (upd_conn c (set_quota q k) s)).
+Proof.
+  cbn [step_event]. destruct (nget c (b_conns s)) as [k|] eqn:Hk; [|now left].
+  destruct (k_phase k) eqn:Hp; try now left.
+  destruct (too_big k n s) eqn:Hb; [|left; now rewrite handle_packet_sz_small].
+  right. exists k. split; [reflexivity|]. split; [exact Hp|]. split; [exact Hb|].
+  destruct (handle_packet_sz_big c k p n s Hb) as [code| |q].
+  - left. now exists code.
+  - right. left. now destruct (fail_conn c (Some 149) false s).
+  - right. right. exists q. now destruct (fail_conn c (Some 149) false (upd_conn c (set_quota q k) s)).
+Qed.
+
+(* every statement about `ESend c p` applies to the sized packet when it is not too big for socket c *)
+Lemma step_sz_small s c p n :
+  (forall k, nget c (b_conns s) = Some k -> k_phase k = PhConnected -> too_big k n s = false) ->
+  step_event s (ESendSz c p n) = step_event s (ESend c p) /\ step s (ESendSz c p n) = step s (ESend c p).
+Proof.
+  intros H.
+  assert (E : step_event s (ESendSz c p n) = step_event s (ESend c p)).
+  { destruct (step_event_sz s c p n) as [E|(k & Hk & Hp & Hb & _)]; [exact E|]. rewrite (H k Hk Hp) in Hb. discriminate. }
+  split; [exact E|]. unfold step. now rewrite E.
+Qed.
